@@ -31,6 +31,8 @@ class NumpyScalar:
 
     def _to_buffer(self, buffer, offset, value, info=None):
         data = self._dtype.type(value).tobytes()
+        if len(data) != self._size:  # e.g. a sequence given for one number
+            raise ValueError(f"{value} is not a single {self.__name__}")
         buffer.update_from_buffer(offset, data)
 
     def __call__(self, value=0):
